@@ -2,6 +2,7 @@ package main
 
 import (
 	"fmt"
+	"os"
 	"strings"
 
 	"github.com/theparanoids/ysshra/internal/verifharness/hx"
@@ -11,12 +12,51 @@ var windows = []string{"cur", "cur", "cur", "past", "future", "forever", "zero",
 var kidKinds = []string{"ys", "ys", "ystouch", "ysff", "ysnonce", "nover", "incons", "deftouch", "missing", "free", "empty", "headless", "headless0", "headlessneg", "nonce0", "headless17", "touch4", "touch258", "ys"}
 var comments = []string{"", "c", "my key", "paranoids.regular-cert"}
 
+// exhaustiveSets: every sequence of `depth` operations from a curated alphabet, from a handful of
+// starting states, in both modes — small-scope exhaustive coverage next to the random histories.
+func exhaustiveSets(depth int) [][]string {
+	// a small universe: key k1 with a valid YSSHCA certificate c1, an expired one c2, a certificate
+	// with a free-text KeyID c3; key k2 with a valid YSSHCA certificate c4
+	c1, c2, c3, c4 := "c1.k1.cur.ys.0", "c2.k1.past.ys.0", "c3.k1.cur.free.0", "c4.k2.cur.ystouch.0"
+	alphabet := []string{"list", "signers", "sign=" + c1, "sign=k1", "sign=" + c2, "add=" + c4 + ":63", "addhard=" + c1 + "=-", "addhard=" + c2 + "=-",
+		"addhard=" + c3 + "=796b", "remove=" + c1, "remove=k1", "removeall", "lock=7077", "unlock=7077", "unlock=6e6f", "uadd=k1:-", "uadd=" + c1 + ":63",
+		"uremove=k1", "uremoveall", "forward=c80102", "list!fail:list", "list!fail:remove", "sign=" + c1 + "!fail:sign", "addhard=" + c1 + "=-!fail:list"}
+	starts := []string{"-", "k1:-", "k1:-," + c1 + ":63", "k1:-," + c2 + ":-,k2:6b"}
+	var seqs [][]string
+	var rec func(prefix []string)
+	rec = func(prefix []string) {
+		if len(prefix) == depth {
+			seqs = append(seqs, append([]string{}, prefix...))
+			return
+		}
+		for _, a := range alphabet {
+			rec(append(prefix, a))
+		}
+	}
+	rec(nil)
+	var sets [][]string
+	for _, noup := range []string{"0", "1"} {
+		for _, st := range starts {
+			for _, q := range seqs {
+				sets = append(sets, []string{noup, "-", st, strings.Join(q, ";")})
+			}
+		}
+	}
+	return sets
+}
+
 func genHist(g *hx.Gen, out *hx.Out) {
 	var sets [][]string
 	total := *hx.Count
 	for i := 0; i < total; i++ {
 		sets = append(sets, genOne(g, i))
 	}
+	// small-scope exhaustive part: all sequences of 2 operations (thorough tier: 3)
+	depth := 2
+	if os.Getenv("VERIF_TIER") == "thorough" {
+		depth = 3
+	}
+	sets = append(sets, exhaustiveSets(depth)...)
 	if hx.Serial() {
 		for i := range sets {
 			id := fmt.Sprintf("h%d", i)
